@@ -61,6 +61,10 @@ def run(chk, repo, tier):
             if not good and va is not None and is_app(va, ('listcomp', 'genexp', 'tuplecomp')) and len(va[2]) == 2:
                 # the same expression mapped over every axis of the old pixel scale
                 body, seq = va[2]
+                sqa = seq.single_atom() if isinstance(seq, Poly) else None
+                if sqa is not None and sqa[0] == 'idx' and isinstance(sqa[2], Slice) and sqa[2].lo in (NONE, C(0)) and \
+                        sqa[2].hi == C(2) and sqa[2].step in (NONE, None):
+                    seq = Poly.atom(sqa[1])          # pixelscale[:2]: both axes of the (row, col) pair
                 its = [a for a in nf.value_atoms(body) if a[0] == 'iter']
                 good = seq in (nf.attr(plane, 'pixelscale'), nf.attr(plane, '_pixelscale')) and len(its) == 1 and \
                     body == nf.index(seq, Poly.atom(its[0])) / scale
